@@ -238,6 +238,7 @@ CfgsTimers0 == {Cfg(0, "restart", 0, FALSE, FALSE, <<ss>>, <<>>) :
 ScriptsTimers == {<<>>, <<Eff("ctx_stop", 0, "")>>, <<Eff("ctx_restart", 0, "")>>}
 CfgsTwo == {Cfg(cap, "restart", 0, FALSE, FALSE, <<<<>>>>, <<Y>>) : cap \in {Unb, 1}}
 CfgsUnb == {Cfg(Unb, "restart", 0, FALSE, FALSE, <<<<>>>>, <<Y>>)}
+CfgsB0 == {Cfg(0, "restart", 0, FALSE, FALSE, <<<<>>>>, <<Y>>)}
 CfgsB1 == {Cfg(1, "restart", 0, FALSE, FALSE, <<<<>>>>, <<Y>>)}
 CfgsOwn == {Cfg(cap, "restart", 0, FALSE, TRUE, <<<<Y>>>>, <<Y>>) : cap \in {Unb, 1}}
 CfgsStrat == {Cfg(Unb, st, 0, FALSE, FALSE, <<<<>>>>, <<Y>>) : st \in {"restart", "recreate", "none"}}
